@@ -217,7 +217,14 @@ func c10Sibling(r *rand.Rand, depth int) (jmem, string) {
 		case 2:
 			return jmem{"type", obj(jmem{"type", raw(`"Feature"`)})}, "lookalike-type-obj"
 		case 3:
-			return jmem{"log", arr(obj(jmem{"version", raw(`"1.2"`)}))}, "lookalike-log-arr"
+			switch r.Intn(3) {
+			case 0:
+				return jmem{"log", arr(obj(jmem{"version", raw(`"1.2"`)}))}, "lookalike-log-arr"
+			case 1:
+				return jmem{"log", arr(raw(`0`), obj(jmem{"version", raw(`"1.2"`)}, jmem{"entries", arr()}))}, "lookalike-log-mixed-arr"
+			default:
+				return jmem{"asset", arr(raw(`true`), raw(`"x"`), obj(jmem{"version", raw(`"2.0"`)}))}, "lookalike-asset-mixed-arr"
+			}
 		case 4:
 			return jmem{"log", obj(jmem{"x", obj(jmem{"version", raw(`1`)})}, jmem{"Version", raw(`1`)})}, "lookalike-log-deep"
 		default:
